@@ -35,7 +35,7 @@ static ssize_t _fast_append(MPT_STRUCT(slice) *sl, size_t nblk, const void *from
 	if (pos > used) {
 		buf->_used = pos;
 	}
-	return take;
+	return take / esze;
 }
 
 /*!
